@@ -252,7 +252,7 @@ pub fn run(inp: &str, out: &str) -> i32 {
     }
     // keep the structural signature stable while shrinking, if this very case reproduces it
     let sig = if fails(prop, &r.case, &r.oracle, Some(&r.sig)).is_some() { Some(r.sig.as_str()) } else { None };
-    let (best, v, evals) = minimise(prop, &r.case, &r.oracle, sig, Duration::from_secs(90));
+    let (best, v, evals) = minimise(prop, &r.case, &r.oracle, sig, Duration::from_secs(60));
     let v = v.unwrap_or(Violation { oracle: r.oracle.clone(), sig: r.sig.clone(), detail: r.detail.clone() });
     let rep = Replay { case: best, oracle: v.oracle, sig: v.sig, detail: v.detail, minimised: true, tier: r.tier };
     if std::fs::write(out, rep.to_json().pretty()).is_err() {
